@@ -254,6 +254,38 @@ def do_op(k, name, a, b, text):
     elif name == "ar_set_name":
         ar[a].name = prepared(("t", text), lambda: text)
         res(k)
+    elif name == "ar_bad_name":
+        try:
+            ar[a].name = prepared(("bn",), lambda: 1234567)
+            res(k, "NOERROR")
+        except BaseException as e:
+            res(k, "EXC", type(e).__name__)
+    elif name == "ar_bad_vals":
+        try:
+            ar[a].vals = prepared(("bvl", b), lambda: [1, bad_value(1 + b % 5), 3])
+            res(k, "NOERROR")
+        except BaseException as e:
+            res(k, "EXC", type(e).__name__)
+    elif name == "char_arr_two":
+        la = prepared(("c2a", a, b), lambda: ["w" * ((i - 1) % (b + 1)) + "" for i in range(1, a + 1)])
+        lb = prepared(("c2b", a, b), lambda: ["w" * ((i - 1) % (b + 1)) + "" for i in range(1, a)])
+        res(k, simlib.charArrTwo(la, len(la), lb, len(lb)))
+    elif name == "bad_char_arr_two":
+        la = prepared(("c2a", a, b), lambda: ["w" * ((i - 1) % (b + 1)) + "" for i in range(1, a + 1)])
+        lb = prepared(("c2x", a, b), lambda: ["q", 17 + b, "r"])
+        try:
+            simlib.charArrTwo(la, len(la), lb, len(lb))
+            res(k, "NOERROR")
+        except BaseException as e:
+            res(k, "EXC", type(e).__name__)
+    elif name == "arr_in_out":
+        arr(k, simlib.arrInOut(prepared(("aio", a), lambda: [i for i in range(1, a + 1)]), b))
+    elif name == "bad_arr_in_out":
+        try:
+            simlib.arrInOut(prepared(("aio", a), lambda: [i for i in range(1, a + 1)]), -1)
+            res(k, "NOERROR")
+        except BaseException as e:
+            res(k, "EXC", type(e).__name__)
     elif name == "ar_total":
         res(k, simlib.arrTotal(ar[a]))
     elif name == "ar_get_vals":
